@@ -630,6 +630,63 @@ pub fn generate(rng: &mut Rng, cfg: &GenCfg) -> Universe {
     u
 }
 
+/// Add a *ladder* to a universe: `k` zones `lad<i>.` below the root, each served by a single name server that is named
+/// in a zone of its own (`ladhost<i>.`, delegated from the root with glue) and for which the root sends **no** glue;
+/// `a.lad<i>. CNAME a.lad<i+1>.` and an A record at the end.  Resolving `a.lad0.` takes one name-server address lookup
+/// through upstream per link: many sibling sub-resolutions inside one request, each of which must leave the resolver's
+/// bookkeeping as it found it.  Returns the question name.  IPv4 only (203.0.113.100+).
+pub fn add_ladder(u: &mut Universe, k: usize) -> DomainName {
+    let soa = |apex: &DomainName, serial: u32| FlatSoa {
+        mname: child_name(apex, &["mname"]),
+        rname: dn("hostmaster.invalid."),
+        serial,
+        refresh: 7200,
+        retry: 3600,
+        expire: 86400,
+        minimum: 300,
+    };
+    for i in 0..k {
+        let host_apex = dn(&format!("ladhost{i}."));
+        let host_name = child_name(&host_apex, &["ns"]);
+        let h = u.hosts.len();
+        u.hosts.push(UHost {
+            name: host_name.clone(),
+            v4: Some(Ipv4Addr::new(203, 0, 113, 100 + i as u8)),
+            v6: None,
+        });
+        // the zone the server's name lives in: in-bailiwick, glue from the root
+        let hz = u.zones.len();
+        u.zones.push(UZone {
+            apex: host_apex.clone(),
+            soa: soa(&host_apex, 7000 + i as u32),
+            recs: u.addr_rrs(h).into_iter().map(|r| URec { owner: r.name.clone(), data: r.rtype_with_data.clone(), ttl: r.ttl }).collect(),
+            ns_hosts: vec![h],
+            glue: vec![true],
+            parent: Some(0),
+            children: Vec::new(),
+            depth: 1,
+        });
+        u.zones[0].children.push(hz);
+        // the ladder zone itself: same server, no glue
+        let apex = dn(&format!("lad{i}."));
+        let owner = child_name(&apex, &["a"]);
+        let data = if i + 1 < k { cname(&dn(&format!("a.lad{}.", i + 1))) } else { a(Ipv4Addr::new(10, 222, 0, k as u8)) };
+        let lz = u.zones.len();
+        u.zones.push(UZone {
+            apex: apex.clone(),
+            soa: soa(&apex, 8000 + i as u32),
+            recs: vec![URec { owner, data, ttl: 300 }],
+            ns_hosts: vec![h],
+            glue: vec![false],
+            parent: Some(0),
+            children: Vec::new(),
+            depth: 1,
+        });
+        u.zones[0].children.push(lz);
+    }
+    dn("a.lad0.")
+}
+
 /// Questions worth asking in a universe: existing names, missing names and types, NS hosts, apexes, aliases.
 pub fn questions(rng: &mut Rng, u: &Universe, n: usize) -> Vec<Question> {
     let names = u.all_names();
